@@ -1,5 +1,5 @@
 """C07 -- rolling updates."""
-from props import sync_level
+from props import sync_level, all_families
 from plan_roll import ROLL_PLAN
 
 MANIFEST = dict(
@@ -16,4 +16,4 @@ MANIFEST = dict(
 
 
 def run(scr, tier, replay_file):
-    return sync_level(scr, tier, "C07", "C07_", ROLL_PLAN, replay_file)
+    return sync_level(scr, tier, "C07", "C07_", all_families(ROLL_PLAN), replay_file)
